@@ -10,7 +10,7 @@ from ..report import RuleCtx
 from ..consteval import fold_expr, Regex
 from .. import rx
 from .c01_sym import sym_paths, is_call, show, subterms
-from .c01_parser import MPARSER, mro_cached
+from .c01_parser import MPARSER, mro_cached, _summaries, actual_name
 from .c01_ops import LexTables, _guarded, HOLDERS, DECOR, _strip_calls
 
 SYNTAX_MD = 'docs/markdown/Syntax.md'
@@ -149,13 +149,36 @@ def _fmt_esc(d: T.Tuple[T.Any, ...]) -> str:
     return f'{pre}{cls}{rep}{suf}'
 
 
+def _const_domain(e: ast.AST) -> T.Optional[T.Tuple[str, T.Set[T.Any]]]:
+    """(variable, constants) when the test says `variable is one of these constants`: `x in {a, b}` / `x in (a, b)` / `x == a` / `a == x` /
+    `x == a or x == b` (any nesting of or)."""
+    if isinstance(e, ast.Compare) and len(e.ops) == 1:
+        l, r = e.left, e.comparators[0]
+        if isinstance(e.ops[0], ast.In) and isinstance(l, ast.Name) and isinstance(r, (ast.Set, ast.Tuple, ast.List)) and all(isinstance(x, ast.Constant) for x in r.elts):
+            return l.id, {x.value for x in r.elts}          # type: ignore[attr-defined]
+        if isinstance(e.ops[0], ast.Eq):
+            if isinstance(l, ast.Name) and isinstance(r, ast.Constant):
+                return l.id, {r.value}
+            if isinstance(r, ast.Name) and isinstance(l, ast.Constant):
+                return r.id, {l.value}
+    if isinstance(e, ast.BoolOp) and isinstance(e.op, ast.Or):
+        parts = [_const_domain(v) for v in e.values]
+        if all(p is not None for p in parts) and len({p[0] for p in parts}) == 1:       # type: ignore[index]
+            out: T.Set[T.Any] = set()
+            for p in parts:
+                out |= p[1]         # type: ignore[index]
+            return parts[0][0], out     # type: ignore[index]
+    return None
+
+
 def r7(ctx: RuleCtx) -> None:
     repo = ctx.repo
     mod = repo.module(MPARSER)
     lt = LexTables(ctx)
     # (a) the four string token kinds: delimiters read off the specification regexes (literal prefix / suffix),
     #     `multiline` in the token id <=> triple-quote delimiters, `fstring` in the id <=> f prefix
-    strings = sorted(fold_expr(repo, mod, ast.Name(id='ALL_STRINGS', ctx=ast.Load())))
+    _summaries(ctx, mod, 'e10')           # registers the actual name of the string-token table by role
+    strings = sorted(fold_expr(repo, mod, ast.Name(id=actual_name(repo, 'ALL_STRINGS'), ctx=ast.Load())))
     ctx.floor('string token kinds (ALL_STRINGS)', len(strings), 4)
     delim: T.Dict[str, T.Tuple[str, str]] = {}
     for tid in strings:
@@ -187,8 +210,9 @@ def r7(ctx: RuleCtx) -> None:
                 and isinstance(st.value.slice, ast.Slice):
             sets = []
             for ge, val in guards:
-                if val and isinstance(ge, ast.Compare) and len(ge.ops) == 1 and isinstance(ge.ops[0], ast.In) and isinstance(ge.left, ast.Name) and isinstance(ge.comparators[0], ast.Set):
-                    sets.append((ge.left.id, {e.value for e in ge.comparators[0].elts if isinstance(e, ast.Constant)}))
+                dom = _const_domain(ge) if val else None
+                if dom is not None:
+                    sets.append(dom)
             if len(sets) != 1:
                 continue
             var, tids = sets[0]
@@ -237,32 +261,51 @@ def r7(ctx: RuleCtx) -> None:
     ctx.require(any(m is False for _, m in seen) and any(m is True for _, m in seen), 'StringNode: both the single-line and the multi-line row exist', mod, 'StringNode.__init__',
                 f'StringNode rows {sorted(map(str, seen))}', f'rows {sorted(map(str, seen))}', init)
     esc_fn = mod.func('StringNode.escape')
-    ok = False
+    regex_name = None
+    callback = None
+    verdicts = []
     for sp in sym_paths(esc_fn):
-        r = _strip_calls(sp.result)
-        ok = r == ('call', 'ESCAPE_SEQUENCE_SINGLE_RE.sub', None, (('name', 'decode_match'), ('name', 'self.raw_value')), ())
-    ctx.require(ok, 'StringNode.escape substitutes ESCAPE_SEQUENCE_SINGLE_RE matches of raw_value through decode_match', mod, 'StringNode.escape', 'escape() body', 'escape() no longer substitutes the escape regex over raw_value', esc_fn)
-    dm = mod.func('decode_match')
-    ok = False
+        if sp.outcome != 'return':
+            continue
+        subs = [t for t in subterms(sp.result) if is_call(t) and (t[2].endswith('.sub') or t[2] == 're.sub')]
+        if len(subs) != 1:
+            raise Undecided('StringNode.escape: no single regex substitution found')
+        c = subs[0]
+        args = list(c[4]) if c[2] != 're.sub' else list(c[4][1:])
+        rname = c[2][:-4] if c[2] != 're.sub' else (c[4][0][1] if c[4] and c[4][0][0] == 'name' else None)
+        if len(args) < 2 or rname is None or args[0][0] != 'name':
+            raise Undecided('StringNode.escape: substitution call of unknown shape')
+        regex_name, callback = rname, args[0][1]
+        verdicts.append(args[1] == ('name', 'self.raw_value') and sp.result is c)
+    if not verdicts:
+        raise Undecided('StringNode.escape never returns')
+    ctx.require(all(verdicts), f'StringNode.escape substitutes the matches of {regex_name} in raw_value through {callback}', mod, 'StringNode.escape', 'escape() subject',
+                'escape() substitutes over something else than the raw token text (or post-processes the result)', esc_fn)
+    if callback is None or not mod.has_func(callback):
+        raise Undecided(f'StringNode.escape: replacement callback {callback} is not a module function')
+    dm = mod.func(callback)
+    codecs_calls = []
     for sp in sym_paths(dm):
-        r = _strip_calls(sp.result)
-        ok = isinstance(r, tuple) and r[:2] == ('call', 'codecs.decode') and r[3][1:] == (('const', 'unicode_escape'),) and 'group' in show(sp.result)
-    ctx.require(ok, 'decode_match decodes the matched text with unicode_escape', mod, 'decode_match', 'decode_match body', 'decode_match does not decode the match with unicode_escape', dm)
+        codecs_calls += [t for t in subterms(sp.result) if is_call(t, 'codecs.decode')]
+    if not codecs_calls:
+        raise Undecided(f'{callback}: no codecs.decode call found')
+    ok = all(len(t[4]) == 2 and t[4][1] == ('const', 'unicode_escape') and 'group' in show(t[4][0]) for t in codecs_calls)
+    ctx.require(ok, f'{callback} decodes the matched text with unicode_escape', mod, callback, 'escape decoding codec', f'{callback} does not decode the matched text with the unicode_escape codec', dm)
     # (c) the escape regex accepts exactly the documented escapes
     doc = documented_escapes(ctx)
     want = escape_reference(doc)
-    reg = fold_expr(repo, mod, ast.Name(id='ESCAPE_SEQUENCE_SINGLE_RE', ctx=ast.Load()))
+    reg = fold_expr(repo, mod, ast.parse(regex_name, mode='eval').body)
     if not isinstance(reg, Regex):
-        raise Undecided('ESCAPE_SEQUENCE_SINGLE_RE is not a compiled regex')
-    node = mod.assign_value('ESCAPE_SEQUENCE_SINGLE_RE')
+        raise Undecided(f'{regex_name} is not a compiled regex')
+    node = mod.assign_value(regex_name) if mod.has_assign(regex_name) else esc_fn
     got = escape_alternatives(reg)
     ctx.floor('escape forms documented in Syntax.md', len(doc), 14)
     for d in sorted(want - got, key=_fmt_esc):
         near = [g for g in got if g[0] == d[0]]
-        ctx.violation(mod, '<module>', f'ESCAPE_SEQUENCE_SINGLE_RE lacks {_fmt_esc(d)}',
+        ctx.violation(mod, '<module>', f'escape regex lacks {_fmt_esc(d)}',
                       f'Syntax.md documents the escape form {_fmt_esc(d)}; the regex has {[_fmt_esc(g) for g in near] or "no alternative with this prefix"}', node)
     for g in sorted(got - want, key=_fmt_esc):
-        ctx.violation(mod, '<module>', f'ESCAPE_SEQUENCE_SINGLE_RE decodes {_fmt_esc(g)}', f'the regex decodes {_fmt_esc(g)}, which is not a documented escape form '
+        ctx.violation(mod, '<module>', f'escape regex decodes {_fmt_esc(g)}', f'the regex decodes {_fmt_esc(g)}, which is not a documented escape form '
                       f'(documented: {sorted(_fmt_esc(w) for w in want)})', node)
     for d in sorted(want & got, key=_fmt_esc):
         ctx.ok(f'escape form {_fmt_esc(d)} is decoded exactly as documented')
@@ -384,6 +427,8 @@ def r8(ctx: RuleCtx) -> None:
         doc = yaml_methods(repo.read(f'{YAML_DIR}{ty}.yml'))
         ctx.floor(f'documented methods of {ty}', len(doc), DOC_FLOOR[ty])
         reg = registered_methods(repo, mod, holder)
+        if not reg:
+            raise Undecided(f'{holder}: no `@InterpreterObject.method(name)` registration found - the registration idiom is not the one this rule reads')
         missing = sorted(set(doc) - set(reg))
         extra = sorted(set(reg) - set(doc))
         ctx.require(not missing, f'{ty}: every documented method is registered ({len(doc)})', mod, holder, f'{ty}: unregistered documented methods {missing}',
